@@ -755,3 +755,53 @@ def rule_nt_class_from_type(ctx):
                              (render(guard[1])[:60] if guard else "no condition"))
     ctx.floor("NTCLASS+", 1, n, "(stores of the little-endian class byte into a number-type record)")
     return n
+
+
+def rule_element_count_from_type_size(ctx):
+    """ELEMCOUNT (C06): the conversion entry points take a number of *elements*.  A caller that starts from a byte count divides
+    by the size of the number type it converts (DFKNTsize, an element-size field, sizeof) - a count obtained as `bytes / 4`
+    with a literal divisor is right for 4-byte types only and makes the routine run twice as far for float64 as the buffers
+    reach.  Every element count handed to DFKconvert / DFKnumin / DFKnumout that is a quotient has a divisor that is not an
+    integer literal."""
+    from .facts import calls_in
+    prog = ctx.prog
+    n = 0
+    ARG = {"DFKconvert": 3, "DFKnumin": 2, "DFKnumout": 2}
+    for f in prog.lib_funcs():
+        quot = {}
+        for _b, _i, s, x in f.nodes(True):
+            rhs = None
+            if x[0] == "asg" and x[1] == "=" and kind(strip(x[2])) == "var":
+                rhs, v = strip(x[3]), strip(x[2])[1]
+            elif x[0] == "decl":
+                for d in x[1]:
+                    if d[2] is not None and kind(strip(d[2])) == "bin" and strip(d[2])[1] == "/":
+                        quot[d[0]] = (strip(d[2]), s.get("l", f.line))
+                continue
+            if rhs is not None and kind(rhs) == "bin" and rhs[1] == "/":
+                quot[v] = (rhs, s.get("l", f.line))
+        k = 0
+        for _b, _i, s, x in f.nodes(True):
+            if x[0] != "call":
+                continue
+            name = x[1]
+            if name is None:
+                # (DFKnumin)(...) — a call through the parenthesised global function pointer
+                ce = strip(x[2])
+                name = ce[1] if kind(ce) in ("var", "fn", "ref") else None
+            if name not in ARG or len(x[3]) <= ARG[name]:
+                continue
+            a = strip(x[3][ARG[name]])
+            q = a if kind(a) == "bin" and a[1] == "/" else (quot.get(a[1], (None,))[0] if kind(a) == "var" else None)
+            if q is None:
+                continue
+            k += 1
+            n += 1
+            key = "ELEMCOUNT:%s#%d" % (f.name, k)
+            line = s.get("l", f.line)
+            if is_int(q[3]) and int_val(q[3]) > 1 and not (len(strip(q[3])) > 2 and isinstance(strip(q[3])[2], str) and "sizeof" in strip(q[3])[2]):
+                ctx.violated("ELEMCOUNT", key, f.where(line), "the element count handed to %s is `%s`: a byte count divided by the literal %d, whatever the size of the number type being converted" % (name, render(q)[:40], int_val(q[3])))
+            else:
+                ctx.holds("ELEMCOUNT", key, f.where(line), "the element count handed to %s is `%s`, a quotient by an element size" % (name, render(q)[:50]), nontrivial=True)
+    ctx.floor("ELEMCOUNT", 2, n, "(element counts that are quotients)")
+    return n
